@@ -484,6 +484,7 @@ func (r *Router) RunHandlers(ctx context.Context) error {
 			verifhook.At("router.life.loop.locked", name)
 			delete(r.handlers, name)
 			r.handlersLock.Unlock()
+			verifhook.At("router.wiring.handler_removed", name)
 
 			logger.Trace("Removed subscriber from r.handlers", nil)
 
